@@ -172,3 +172,10 @@ func writeCases(dir, name, header, ctor string, cases []string, shard int) []str
 	}
 	return files
 }
+
+func minInt(a, b int) int {
+	if a < b {
+		return a
+	}
+	return b
+}
